@@ -143,7 +143,8 @@ def run(ctx):
         case = {"kind": "final-state", "names": sorted(ds)}
         if cc.to_list() != want or len(cc) != len(dd):
             res.violation("conjugated final state: multiplicities / number of particles not preserved", case, impl=cc.to_list(), model=want, clause="final states")
-        info = {"model": "PHSP", "model_params": [1.0, "x"], "study": gen.json_value(rng)}
+        info = {"model": rng.choice(["PHSP", "", None]), "model_params": rng.choice([[1.0, "x"], None, "", [], 0, [0.0]]), "study": gen.json_value(rng),
+                "note": rng.choice([None, "", 0, "x"])}
         dm = DecayMode(0.123, ds, **info)
         dmc = dm.charge_conjugate()
         if dmc.bf != dm.bf or canon_json(dmc.metadata) != canon_json(dm.metadata) or dmc.daughters.to_list() != want:
